@@ -873,6 +873,12 @@ class Manager:
 
             self.fire(exception(*err, handler=None, fevent=event))
 
+            if parent is None:
+                # the failed generator handler is finished: account for it
+                event.waitingHandlers -= 1
+                if event.waitingHandlers == 0:
+                    self._eventDone(event, err)
+
     def tick(self, timeout=-1):
         """
         Execute all possible actions once. Process all registered tasks
